@@ -37,13 +37,14 @@ def scenarios(tier, fv):
     S = []
 
     def sc(name, lines, setup=(), world=("ok", "plain", "plain", "1"), argv=(b"true", b"arg"), faults=True, quick=False, ini=True):
-        S.append({"name": name, "lines": [b"[snoopy]"] + list(lines) if ini else None, "setup": ["stdin\tnull"] + list(setup), "world": list(world),
+        S.append({"name": name, "lines": [b"[snoopy]"] + list(lines) if ini else None, "setup": ([] if any(x.startswith("stdin\t") for x in setup) else ["stdin\tnull"]) + list(setup), "world": list(world),
                   "argv": list(argv), "faults": faults, "quick": quick})
     dl = "devlog\t@D@/dl.sock\t0"
     sc("ini-absent-defaults", [], setup=[dl], quick=True, ini=False)
     sc("file-all-datasources", [b"output = file:@D@/out.log", b'message_format = "' + ALL_DS + b'"', b'filter_chain = "exclude_spawns_of:nosuch,foo;only_uid:0;nosuchfilter:x;only_root"'], quick=True)
     sc("socket", [b"output = socket:@D@/s.sock", b'message_format = "s %{cmdline} %{cwd}"'], setup=["dgram\t@D@/s.sock\t0"], quick=True)
     sc("devlog-ident-template", [b"output = devlog", b'syslog_ident = "id-%{hostname}-%{tty}"', b'message_format = "d %{cmdline}"'], setup=[dl], quick=True)
+    sc("terminal-on-stdin", [b"output = file:@D@/out.log", b'message_format = "p %{tty} %{tty_uid} %{tty_username} %{ipaddr}"', b'filter_chain = "only_tty"'], setup=["stdin\tpty"], quick=True)
     sc("stdout", [b"output = stdout", b'message_format = "o %{cmdline} %{login}"'], setup=["stdfd\t1\tfile:@D@/stdout.txt"], quick=True)
     sc("stderr", [b"output = stderr", b'message_format = "e %{cmdline} %{username}"'], setup=["stdfd\t2\tfile:@D@/stderr.txt"], quick=True)
     sc("file-path-template", [b"output = file:@D@/o-%{username}-%{datetime:%Y}.log", b'message_format = "t %{cmdline}"'], quick=True)
@@ -229,7 +230,7 @@ def check(run):
                                  "fault_plan": plan or "-", "call_index": idx},
                "script": script, "call_index": idx}
         rep.update(extra or {})
-        run.violation("%s:%s" % (s["name"].split(":")[0] if s["name"].startswith("corpus") else "run", sig), kind,
+        run.violation("%s:%s" % (s["name"] if s["name"].startswith("corpus") else "run", sig), kind,
                       "%s [scenario %s, fault plan %s]" % (text, s["name"], plan or "none"), rep)
 
     def consume(s, res, script, plans, retcodes, tag):
